@@ -516,6 +516,24 @@ class DirWatch:
 
 def fs_oracle(obs, x):
     out = []
+    if x.kind == 'download' and isinstance(x.dest, str) and x.fifo_reader is not None and x.outcome is not None:
+        # a special file (FIFO) as destination: whatever the outcome, the name the caller gave still is that special file (it is
+        # neither removed by a cleanup nor replaced by a regular file), and no temporary file stands beside it
+        import stat as _stat
+
+        mech = base_mech(obs, x)
+        real = os.path.realpath(x.dest)
+        try:
+            st = os.lstat(real)
+            is_fifo = _stat.S_ISFIFO(st.st_mode)
+        except OSError:
+            is_fifo = None
+        if is_fifo is None:
+            out.append(V(f'{x.label}: the FIFO given as destination no longer exists after the transfer ended {x.outcome}', **mech, sym='special-destination-removed',
+                         outcome=x.outcome))
+        elif not is_fifo:
+            out.append(V(f'{x.label}: the FIFO given as destination was replaced by another kind of file ({x.outcome})', **mech, sym='special-destination-replaced'))
+        return out
     if x.kind != 'download' or not isinstance(x.dest, str) or x.fifo_reader is not None:
         return out
     mech = base_mech(obs, x)
